@@ -252,17 +252,29 @@ claim('C08', 'proof',
       'and parity on plane coordinates, equals the even-odd specification in general position).',
       'DESIGN.md 4 C08')
 claim('C09', 'proof',
-      'Lean 4 theorems on plane lifting of set operations and on a literal model of the loop-grouping step + model/code correspondence; exact cell-set oracle on the real code',
+      'Lean 4 theorems on plane lifting of set operations and on literal models of the loop-grouping step and of the graph-based split (DirectedGraphNetwork: pre-splitting, filters, cycle search) + model/code correspondence; exact cell-set oracle on the real code',
       'Proved: the plane map is injective and commutes with union/intersection/difference, '
       'lifted faces lie on the plane with Newell vector shoelace*n; the model of '
       'Face3D._from_bool_poly grouping (sorted loops, containment tests) yields faces that are '
       'disjoint and whose union is the even-odd region, for any nesting depth, under a laminar '
-      'containment relation; area identities of split/difference/union. The graph-based '
-      'split_with_line(s) and the sweep are NOT modelled: they are decided by the exact cell-set '
-      'specification (Spec/CellBool) on the real outputs.',
-      'Trusted: Lean kernel, harness, Spec/CellBool, model correspondence. Partial. Seven open '
-      'findings in split_with_lines / coplanar_* (cuts along edges, dangling cut ends, rounding '
-      'dependent non-splits) are listed in known_findings.json.',
+      'containment relation; area identities of split/difference/union. Model/Network transcribes '
+      'the graph-based split (node keys by rounded coordinates, from_shape_to_split with both '
+      'filters, min_cycle walk, all_min_cycles with its fallback, merge_faces_to_holes) and agrees '
+      'with the real code graph for graph: every returned cycle is a closed walk on graph edges, '
+      'every edge is a sub-segment of an input edge or cut, kept cut pieces have their midpoint '
+      'strictly inside the face and are connected at both ends, and under the decidable '
+      'certificate cleanSplit the pieces conserve the shoelace sum; the defects found by the '
+      'model (dangling cut, pieces across a concavity, cut along an edge, unsplit holed face) '
+      'were repaired in the library and are kept as kernel-checked history; the remaining ones '
+      '(key rounding, hole-to-boundary bridge) are refuted on the model as well. The Boolean '
+      'sweep behind coplanar_* has its own literal model (C04). Whole operations are decided by '
+      'the exact cell-set specification (Spec/CellBool) on the real outputs.',
+      'Trusted: Lean kernel, py2lean, harness, Spec/CellBool, model correspondence. Partial: the '
+      'correctness of the smallest-angle face tracing (cleanSplit from input hypotheses) is not '
+      'proved. Open findings: the sweep exception swallowed by coplanar_*, node-key rounding, and '
+      '21 recorded inputs of a fixed lattice stream on which the split is still wrong (cuts '
+      'through vertices / holes / self-crossing polylines); listed with their inputs in '
+      'known_findings.json and re-confirmed on every run.',
       'DESIGN.md 4 C09')
 claim('C15', 'proof',
       'Lean 4 theorems on literal models of the colinear / duplicate vertex scans (index loops proved equal to a list recursion) + model/code correspondence over every rotation',
